@@ -286,9 +286,14 @@ theorem blockOnStage_post {w : World} (h : ActT w.exec.threads) (c : TCtl) (f mo
     Post (w.blockOnStage c f mode) (fun w' => GoodT w'.exec.threads) := by
   unfold World.blockOnStage; post
 
-theorem wakeStage_post {w : World} (h : ActT w.exec.threads) (c : TCtl) (f : Nat) (b : Bool) :
-    Post (w.wakeStage c f b) (fun w' => GoodT w'.exec.threads) := by
+theorem wakeStage_post {w : World} (h : ActT w.exec.threads) (c : TCtl) (f : Nat) (b : Bool)
+    (store : Bool := true) :
+    Post (w.wakeStage c f b store) (fun w' => GoodT w'.exec.threads) := by
   unfold World.wakeStage; post
+
+theorem awTakeStage_post {w : World} (h : ActT w.exec.threads) (c : TCtl) (f : Nat) :
+    Post (w.awTakeStage c f) (fun w' => GoodT w'.exec.threads) := by
+  unfold World.awTakeStage; post
 
 theorem dropPass_post {w : World} (h : ActT w.exec.threads) (c : TCtl) (base : Nat)
     (done : World → Except Panic World)
@@ -358,6 +363,8 @@ theorem runOp_post {w : World} (h : ActT w.exec.threads) (c : TCtl) (op : Op) :
   case «lazy» => exact lazyStage_post h _ _
   case wake => exact wakeStage_post h _ _ _
   case wakeRef => exact wakeStage_post h _ _ _
+  case wakeQ => exact wakeStage_post h _ _ _ _
+  case awTake => exact awTakeStage_post h _ _
   all_goals (simp only [World.runOp] <;> post)
 
 theorem stepActive_post {w : World} (h : ActT w.exec.threads) :
